@@ -351,13 +351,18 @@ deriving Inhabited
 /-- verifier.go:19-35 -/
 def Cfg.allows (c : Cfg) (alg : String) : Bool := c.allowAny || c.allowed.contains alg
 
-/-- verifier.go:91-96: protected header first, else the unprotected one -/
+/-- the unprotected header's algorithm ("" when there is no such header) -/
+def Signature.unprotAlg (s : Signature) : String :=
+  match s.header with
+  | some h => h.alg
+  | none => ""
+
+/-- verifier.go `verify`: the protected header's algorithm; when there is no protected header or it
+    names none, the unprotected header's (RFC 7515 §4.1.1 allows `alg` in either) -/
 def Signature.alg (s : Signature) : String :=
   match s.prot with
-  | some p => p.alg
-  | none => match s.header with
-    | some h => h.alg
-    | none => ""
+  | some p => if p.alg == jwa.SignatureAlgorithmUnknown then s.unprotAlg else p.alg
+  | none => s.unprotAlg
 
 /-- the bytes handed to `key.Verify` (verifier.go:107-110) -/
 def signingInput (s : Signature) (sigContent : Bytes) : Bytes :=
@@ -534,8 +539,37 @@ def sigObjects : List Signature → PO (List Wire)
     let r ← sigObjects rest
     pure (.obj o :: r)
 
-/-- jws.go:438-470 -/
+/-- `unicode/utf8.Valid` (RFC 3629: no overlong forms, no surrogates, at most U+10FFFF) -/
+def validUTF8 : Bytes → Bool
+  | [] => true
+  | b0 :: rest =>
+    let cont (b : UInt8) : Bool := 0x80 ≤ b.toNat && b.toNat ≤ 0xBF
+    let n := b0.toNat
+    if n < 0x80 then validUTF8 rest
+    else if 0xC2 ≤ n && n ≤ 0xDF then
+      match rest with
+      | b1 :: r => cont b1 && validUTF8 r
+      | _ => false
+    else if 0xE0 ≤ n && n ≤ 0xEF then
+      match rest with
+      | b1 :: b2 :: r =>
+        (if n == 0xE0 then 0xA0 ≤ b1.toNat && b1.toNat ≤ 0xBF
+         else if n == 0xED then 0x80 ≤ b1.toNat && b1.toNat ≤ 0x9F
+         else cont b1) && cont b2 && validUTF8 r
+      | _ => false
+    else if 0xF0 ≤ n && n ≤ 0xF4 then
+      match rest with
+      | b1 :: b2 :: b3 :: r =>
+        (if n == 0xF0 then 0x90 ≤ b1.toNat && b1.toNat ≤ 0xBF
+         else if n == 0xF4 then 0x80 ≤ b1.toNat && b1.toNat ≤ 0x8F
+         else cont b1) && cont b2 && cont b3 && validUTF8 r
+      | _ => false
+    else false
+
+/-- jws.go `Message.MarshalJSON`: an unencoded payload (b64=false) must be representable as a JSON
+    string, i.e. valid UTF-8 (RFC 7797 §5.2); otherwise the serialisation is refused -/
 def marshalJSON (msg : Message) : PO Bytes :=
+  if msg.nb64 && !validUTF8 msg.payload then PO.fail "marshal-payload-utf8" else
   match msg.signatures with
   | [s] => do
     let o ← sigObject s
